@@ -204,7 +204,7 @@ pub fn check_program(prog: &Program, seed: u64, thorough: bool, rep: &mut Report
 }
 
 pub fn run(p: &Params, rep: &mut Report) {
-    let n = p.size(30, 400);
+    let n = p.size(300, 3000);
     let w = [(Profile::Boundary, 20), (Profile::Loops, 30), (Profile::Boolean, 25), (Profile::Patterns, 10), (Profile::Mixed, 15)];
     let mut rng = p.rng(10);
     for _ in 0..n {
